@@ -769,9 +769,22 @@ func genTx(r *hx.Rand, rich bool) string {
 }
 
 func genChain(r *hx.Rand, nblocks, maxTx int) string {
+	// empty blocks are crash points of their own (their state batch is not empty: current-block marker, merkle leaves):
+	// every chain has a single empty block, a run of two or three, and (one chain in three) an empty first block
+	empty := map[int]bool{}
+	if nblocks >= 6 {
+		empty[1+r.Intn(nblocks-4)] = true
+		run := 1 + r.Intn(nblocks-4)
+		for j := 0; j < 2+r.Intn(2); j++ {
+			empty[run+j] = true
+		}
+		if r.Chance(33) {
+			empty[0] = true
+		}
+	}
 	var ops []string
 	for i := 0; i < nblocks; i++ {
-		if r.Chance(15) {
+		if empty[i] || r.Chance(10) {
 			ops = append(ops, "e")
 			continue
 		}
